@@ -115,6 +115,13 @@ def handle (line : String) : String :=
     match w.toNat? with
     | some w => match decode32 w with | some i => showI32 i | none => "none"
     | none => "bad-args"
+  | ["eligible", w] =>
+    -- is the instruction this 32-bit word denotes the expansion of a legal RV32C instruction?
+    match w.toNat? with
+    | some w => match decode32 w with
+      | some i => if eligible i then "yes" else "no"
+      | none => "none"
+    | none => "bad-args"
   | ["dec16x", h] =>
     match h.toNat? with
     | some h => match decode16 h with | some c => showI32 (expand16 c) | none => "none"
